@@ -1172,7 +1172,104 @@ def capsrv_problem(wi, name, hdr, method, ifr):
                   None if result[2] is None else len(result[2]))
 
 
-R2 = {"cap": cap_problem, "capsrv": capsrv_problem, "fndata": fndata_problem, "etagsrc": etagsrc_problem, "ius": ius_problem, "cfg": cfg_problem, "mix": mix_problem, "sf": sf_problem,
+# ---- RW: serve a file, rewrite it, revalidate with the validators handed out before (seed C11-6a).  The bytes
+#          differ, so the old ETag does not match the current representation: no 304 on If-None-Match, no 206 on
+#          If-Range - also when the size is unchanged and the mtime moved by less than a second.  (Last-Modified has
+#          one-second resolution by statement, so only entity-tag validators are used here.)
+RW_BASE_NS = 1_700_000_000 * 10 ** 9
+# (first mtime, second mtime) in nanoseconds relative to the base
+RW_MTIMES = [(0, 500_000_000), (250_000_000, 750_000_000), (0, 1_000_000), (700_000_000, 1_200_000_000),
+             (999_000_000, 1_001_000_000), (500_000_000, 0), (0, 999_999_000), (0, 0), (0, 2_000_000_000),
+             (0, 1_000_000_000)]
+RW_CONTENT = [(b"ABCDEF", b"abcdef"), (b"ABCDEF", b"ABCDEG"), (b"ABCDEF", b"ABCDEFG"), (b"ABCDEF", b"ABCDEF"),
+              (b"", b"")]
+RW_MODES = ["inm", "inm-weak", "inm+ims", "if-range", "if-range+range-suffix", "inm-list"]
+
+
+def rewrite_problem(mi, ci, mode, method, etag_kind):
+    m1, m2 = RW_MTIMES[mi]
+    old, new = RW_CONTENT[ci]
+    changed = old != new
+    if changed and m1 == m2 and len(old) == len(new):
+        # same size, identical mtime: no stat-based validator can notice; nothing is demanded
+        return None, "undetectable by construction"
+    if not changed and m1 != m2 and etag_kind == "auto":
+        # same bytes, new mtime: whether the automatic tag still matches is the server's choice
+        same_tag_expected = None
+    else:
+        same_tag_expected = not changed
+    d = tempfile.mkdtemp(prefix="c11_rw_")
+    path = os.path.join(d, "f.bin")
+    kw = dict(mimetype="application/octet-stream", conditional=True)
+    if etag_kind == "auto":
+        kw["etag"] = True
+    try:
+        with open(path, "wb") as f:
+            f.write(old)
+        os.utime(path, ns=(RW_BASE_NS + m1, RW_BASE_NS + m1))
+        r0 = send_file(path, create_environ(), **kw)
+        tag, lm = r0.headers.get("ETag"), r0.headers.get("Last-Modified")
+        first = b"".join(r0.response)
+        r0.close()
+        if tag is None:
+            return "no-etag", None
+        if first != old:
+            return "first-body", first
+        with open(path, "wb") as f:
+            f.write(new)
+        os.utime(path, ns=(RW_BASE_NS + m2, RW_BASE_NS + m2))
+        weak = "W/" + tag if not tag.startswith("W/") else tag
+        headers = {
+            "inm": {"If-None-Match": tag},
+            "inm-weak": {"If-None-Match": weak},
+            "inm+ims": {"If-None-Match": tag, "If-Modified-Since": lm},
+            "inm-list": {"If-None-Match": '"zzz", ' + tag},
+            "if-range": {"Range": "bytes=1-2", "If-Range": tag},
+            "if-range+range-suffix": {"Range": "bytes=-2", "If-Range": tag},
+        }[mode]
+        env = create_environ(method=method, headers=headers)
+        try:
+            r = send_file(path, env, **kw)
+        except RequestedRangeNotSatisfiable:
+            return ("416-unexpected" if changed and mode.startswith("if-range") else None), "416"
+        app_iter, status, hl = r.get_wsgi_response(env)
+        body = b"".join(app_iter)
+        if hasattr(app_iter, "close"):
+            app_iter.close()
+        r.close()
+    except Exception as e:  # noqa: BLE001
+        return "exception:" + type(e).__name__, repr(e)
+    finally:
+        shutil.rmtree(d, ignore_errors=True)
+    code = int(status.split()[0])
+    H = dict(hl)
+    detail = (tag, H.get("ETag"), code, H.get("Content-Range"), body)
+    if method == "POST":
+        return (None if code == 200 and body == new else "post-not-plain-200"), detail
+    if changed:
+        # the representation the old tag named is gone: only the complete new body is sound
+        if code == 304:
+            return "304-stale", detail
+        if code == 206:
+            return "206-stale-if-range", detail
+        if code != 200 or body != (b"" if method == "HEAD" else new):
+            return "200-body", detail
+        return None, detail
+    if same_tag_expected is None:
+        ok = (code in (200, 304)) if mode.startswith("inm") else (code in (200, 206))
+        return (None if ok else "status"), detail
+    # unchanged file, unchanged mtime: the validators match -> 304 / the range is served
+    if mode.startswith("inm"):
+        return (None if code == 304 and not body else "304-missing"), detail
+    if len(new) == 0:
+        return (None if code == 200 else "status"), detail
+    want = new[1:3] if mode == "if-range" else new[-2:]
+    if code != 206 or (method == "GET" and body != want):
+        return "206-missing", detail
+    return None, detail
+
+
+R2 = {"rewrite": rewrite_problem, "cap": cap_problem, "capsrv": capsrv_problem, "fndata": fndata_problem, "etagsrc": etagsrc_problem, "ius": ius_problem, "cfg": cfg_problem, "mix": mix_problem, "sf": sf_problem,
       "sfval": sf_validator_problem, "big": big_problem}
 
 
@@ -1235,6 +1332,8 @@ def units(tier):
     for ci in range(len(CAPS)):
         us.append(("r2cap", ci))
     us.append(("r2capsrv",))
+    for mi in range(len(RW_MTIMES)):
+        us.append(("r2rewrite", mi))
     for srci in range(len(BIG_SRC)):
         us.append(("r2big", srci))
     return us
@@ -1348,6 +1447,18 @@ def run_r2_unit(unit, R, tier):
                 for method in METHODS:
                     for ifr in (0, 2):
                         r2_eval(R, "cap", (ci, 0, n, hi, method, ifr, 1))
+    elif kind == "r2rewrite":
+        mi = unit[1]
+        for ci in range(len(RW_CONTENT)):
+            for mode in RW_MODES:
+                for method in METHODS:
+                    for ek in ("auto",):
+                        what, d = r2_eval(R, "rewrite", (mi, ci, mode, method, ek))
+                        if not what and d and isinstance(d, tuple):
+                            R.use("rw-code:%s" % d[2], "rw-tag-changed:%s" % (d[0] != d[1]))
+        if mi == 0:
+            R.sample({"space": "rewrite", "case": "same size, mtime +0.5 s, If-None-Match: old tag",
+                      "result": repr(rewrite_problem(0, 0, "inm", "GET", "auto"))})
     elif kind == "r2capsrv":
         with scratch():
             for wi in range(4):
@@ -1530,6 +1641,7 @@ def finalize(R, tier):
     need |= {"sfcfg:" + c[0] for c in SF_CFGS} | {"bigsrc:" + b for b in BIG_SRC}
     need |= {"cap:" + c[0] for c in CAPS} | {"cap-code:206", "cap-code:416", "cap-code:200"}
     need |= {"capsrv:%d:206" % i for i in range(4)}
+    need |= {"rw-code:200", "rw-code:304", "rw-code:206", "rw-tag-changed:True", "rw-tag-changed:False"}
     need |= {"cfg-code:base:206", "cfg-code:base:416", "cfg-code:ignored:200", "cfg-code:may:200",
              "mix-code:206", "mix-code:200", "mix-code:416", "sf-code:base:206", "sf-code:base:416",
              "sf-code:ignored:200", "sfval-code:304", "sfval-code:200", "big-code:206", "big-code:416", "big-code:200"}
